@@ -19,6 +19,8 @@ func main() {
 		serve()
 	case "gen":
 		gen(os.Args[2:])
+	case "prop":
+		propMain(os.Args[2:])
 	default:
 		fmt.Fprintln(os.Stderr, "unknown subcommand", os.Args[1])
 		os.Exit(2)
